@@ -274,6 +274,8 @@ func checkC04(p *Program, r *Report) {
 	sharedStateRule(p, r, NewEffects(p), "C04.shared", []string{"hdkeychain/extendedkey.go", "hash160.go"})
 	r.Floor("C04.shared", 10)
 	sharedKeyBytesRule(p, r, "C04.shared")
+	noHandoutRule(p, r, "C04.handout", "hdkeychain", "ExtendedKey")
+	r.Floor("C04.handout", 3)
 	memoCoherence(p, r, "C04.memo", "hdkeychain", "ExtendedKey", nil)
 	r.Floor("C04.memo", 0)
 	r.Explain = "C04.pad: every (*big.Int).Bytes() result in hdkeychain (the child scalar after Mod) reaches key material / serialisation only through a pad to " +
